@@ -429,7 +429,7 @@ fn run_mem<BS: BitmapSlice>(mk: impl Fn(u32) -> Cont<BS>, tracked: bool) -> RunI
             }
             let ci = cx().a(conts.len() as u32) as usize;
             let spec = gen_view(conts[ci].size);
-            let mut kind = cx().a(24);
+            let mut kind = cx().a(25);
             if tracked && kind == 20 {
                 kind = 0; // writes through handed-out references are exempt from tracking
             }
@@ -905,6 +905,46 @@ impl Mem {
                     note_w(ci, voff + addr, voff + addr + 4);
                 }
                 j.expect(&got, &exp);
+                tally!(got);
+            }
+            // ---- pointer guards (C17, standard build) -------------------------------------------------
+            24 => {
+                j.kind = "ptr_guard";
+                let ti = cx().a(20) as usize;
+                let sz = TYPE_SIZES[ti];
+                let addr = gen_off(vlen).min(vlen);
+                let maxn = (vlen - addr) / sz;
+                let n = cx().a(maxn as u32 + 1) as usize;
+                let host = conts[ci].ptr as usize + voff + addr;
+                j.desc = format!("pointer guards of slice / typed ref / element array of {} x {} at {}", n, TYPE_NAMES[ti], addr);
+                let got = with_allowed(rid, &[], || {
+                    with_type!(ti, T => flat(catch(|| -> Result<(), VErr> {
+                        let s = view.subslice(addr, n * sz)?;
+                        let mut found: Vec<(&str, usize, usize, usize)> = Vec::new();
+                        { let g = s.ptr_guard(); found.push(("slice", g.len(), g.as_ptr() as usize, n * sz)); }
+                        { let g = s.ptr_guard_mut(); found.push(("slice (mut)", g.len(), g.as_ptr() as usize, n * sz)); }
+                        let a = s.get_array_ref::<T>(0, n)?;
+                        { let g = a.ptr_guard(); found.push(("element array", g.len(), g.as_ptr() as usize, n * sz)); }
+                        { let g = a.ptr_guard_mut(); found.push(("element array (mut)", g.len(), g.as_ptr() as usize, n * sz)); }
+                        if n > 0 {
+                            let r = s.get_ref::<T>(0)?;
+                            { let g = r.ptr_guard(); found.push(("typed reference", g.len(), g.as_ptr() as usize, sz)); }
+                            { let g = r.ptr_guard_mut(); found.push(("typed reference (mut)", g.len(), g.as_ptr() as usize, sz)); }
+                            let r2 = a.ref_at(n - 1);
+                            { let g = r2.ptr_guard(); found.push(("last element", g.len(), g.as_ptr() as usize - (n - 1) * sz, sz)); }
+                        }
+                        for (what, len, ptr, want) in found {
+                            if len != want {
+                                cx().violate("C17", "C17/guard-len", format!("pointer guard length of a {}", what), format!("step {}: the pointer guard of a {} of {} covering {} byte(s) reports len() = {}", step, what, TYPE_NAMES[ti], want, len));
+                            }
+                            if ptr != host {
+                                cx().violate("C17", "C17/guard-ptr", format!("pointer guard address of a {}", what), format!("step {}: the pointer guard of a {} does not point at the accessor's first byte (off by {})", step, what, ptr as isize - host as isize));
+                            }
+                        }
+                        Ok(())
+                    }), obs_unit))
+                });
+                j.expect(&got, &Obs::Unit);
                 tally!(got);
             }
             // ---- in-memory stream adapters ---------------------------------------------------------
